@@ -223,6 +223,9 @@ def parts(tier):
         for sa in psets:
             for sb in psets:
                 yield (D.labelled_points(sa, "abcde"), D.labelled_points(sb, "vwxyz"))
+                if set(sa) & set(sb):  # the incoming label may also sort BEFORE the existing one, or be equal to it
+                    yield (D.labelled_points(sa, "vwxyz"), D.labelled_points(sb, "abcde"))
+                    yield (D.labelled_points(sa, "m"), D.labelled_points(sb, "m"))
 
     ps.append(InputPart("setops-point-pairs", gen_points, _check_points,
                         rule="all ordered pairs of labelled point subsets of a 5-grid; union = union of times, coinciding labels "
